@@ -38,7 +38,7 @@ class NumIntrinsics(Intrinsics):
         return f(*a), self.uf["PFinf"](*a)
 
     def exact_int(self, bs):
-        """(grammar_ok, neg, mag128) for [+-]?[0-9]+ ; mag as 128-bit term"""
+        """(grammar_ok, neg, mag128, signed) for [+-]?[0-9]+ ; mag as 128-bit term (only ever used syntactically)"""
         n = len(bs)
         if n == 0:
             return z3.BoolVal(False), z3.BoolVal(False), z3.BitVecVal(0, 128), z3.BoolVal(False)
@@ -59,6 +59,22 @@ class NumIntrinsics(Intrinsics):
         has_digit = z3.Or(z3.Not(signed_), z3.BoolVal(n >= 2))
         ok = z3.And(okd + [has_digit])
         return ok, neg, mag, signed_
+
+    def mag_ge(self, bs, const):
+        """magnitude of the decimal string bs (first byte may be a sign, then treated as digit 0) >= const, decided by
+        digit-wise lexicographic comparison (no multiplication); only meaningful when the grammar is ok"""
+        n = len(bs)
+        cd = str(const)
+        if len(cd) > n:
+            return z3.BoolVal(False)
+        cd = "0" * (n - len(cd)) + cd
+        sign0 = z3.Or(bs[0] == 0x2d, bs[0] == 0x2b)
+        ds = [z3.If(sign0, z3.BitVecVal(0x30, 8), bs[0])] + list(bs[1:])
+        ge = z3.BoolVal(True)          # all equal so far => >=
+        for i in range(n - 1, -1, -1):
+            c = ord(cd[i])
+            ge = z3.Or(z3.UGT(ds[i], c), z3.And(ds[i] == c, ge))
+        return ge
 
     def float_grammar(self, bs):
         """Go decimal float grammar [+-]?(d+(.d*)?|.d+)([eE][+-]?d+)? as a branch-free DFA over symbolic bytes"""
@@ -106,15 +122,14 @@ class NumIntrinsics(Intrinsics):
                 ok, neg, mag, sg = self.exact_int(bs)
                 if not signed_ok:
                     ok = z3.And(ok, z3.Not(sg))
-                    inrange = z3.ULT(mag, z3.BitVecVal(1 << 64, 128))
+                    inrange = z3.Not(self.mag_ge(bs, 1 << 64))
                     val = z3.Extract(63, 0, mag)
                 else:
-                    lim = z3.BitVecVal(1 << 63, 128)
-                    inrange = z3.If(neg, z3.ULE(mag, lim), z3.ULT(mag, lim))
+                    inrange = z3.If(neg, z3.Not(self.mag_ge(bs, (1 << 63) + 1)), z3.Not(self.mag_ge(bs, 1 << 63)))
                     lo = z3.Extract(63, 0, mag)
                     val = z3.If(neg, -lo, lo)
                 if len(bs) > 38:
-                    inrange = z3.BoolVal(False) if len(bs) > 40 else inrange
+                    raise EngineError("ParseInt/ParseUint contract: literal longer than 38 bytes (128-bit value term would wrap)")
                 items = []
                 outs = eng.branch(st, simp(ok))
                 for s1, b in outs:
@@ -153,9 +168,27 @@ class NumIntrinsics(Intrinsics):
         @reg(H + "verifRefExactInt")
         def ref_exact(eng, st, fr, args, ins):
             bs = self._lit(eng, st, args[0], ins.get("pos"))
-            ok, neg, mag, sg = self.exact_int(bs)
-            big = z3.UGE(mag, z3.BitVecVal(1 << 64, 128))
-            return (simp(ok), simp(neg), simp(big), simp(z3.Extract(63, 0, mag)))
+            if len(bs) <= 38:
+                ok, neg, mag, sg = self.exact_int(bs)
+                lo = simp(z3.Extract(63, 0, mag))
+            else:
+                ok, neg, _, sg = self.exact_int(bs[:1])
+                lo = 0          # only used when the value fits 64 bits, impossible without leading zeros beyond 38 digits... see below
+                ok = None
+            if ok is None:
+                # long literals: grammar from the bytes, magnitude class by digit comparison; an exact 64-bit value is only
+                # needed when it fits, which for > 38 digits requires >= 19 leading zeros: computed over the last 38 digits
+                neg = bs[0] == 0x2d
+                sg = z3.Or(neg, bs[0] == 0x2b)
+                okd = [z3.Or(_isdigit(bs[0]), sg)] + [_isdigit(b) for b in bs[1:]]
+                ok = z3.And(okd)
+                tail = bs[-38:]
+                _, _, mag, _ = self.exact_int([z3.BitVecVal(0x30, 8)] + list(tail[1:]) if False else list(tail))
+                lo = simp(z3.Extract(63, 0, mag))
+            fits_i64_pos = z3.Not(self.mag_ge(bs, 1 << 63))
+            fits_i64_neg = z3.Not(self.mag_ge(bs, (1 << 63) + 1))
+            fits_u64 = z3.Not(self.mag_ge(bs, 1 << 64))
+            return (simp(ok), simp(neg), simp(fits_i64_pos), simp(fits_i64_neg), simp(fits_u64), lo)
 
         @reg(H + "verifRefPF")
         def ref_pf(eng, st, fr, args, ins):
